@@ -21,14 +21,16 @@ def _lib():
     return plot_utils
 
 
-def check_list(points, tol, slack=0):
+def check_list(points, tol, slack=0, as_tuples=False):
     """points: tuple of (x, y).  Returns [(clause, msg)], number deleted.
     slack: relative allowance on tol^2 for inputs whose distances the implementation can only
     compute with floating-point rounding (0 for the exact integer lattice)."""
     plot_utils = _lib()
-    original = [list(p) for p in points]        # fresh vertex objects (identity matters)
+    # fresh vertex objects (identity matters); tuples are a legitimate vertex type too
+    original = [tuple([p[0], p[1]]) if as_tuples else list(p) for p in points]
     work = list(original)
-    desc = f"supersample({[tuple(p) for p in original]}, {tol})"
+    desc = f"supersample({[tuple(p) for p in original]}, {tol})" + \
+        (" [vertices as tuples]" if as_tuples else "")
     try:
         with core.watchdog(5.0):
             ret = plot_utils.supersample(work, tol)
@@ -106,6 +108,9 @@ def _lists_chunk(args):
             points = prefix + rest
             for tol in tols:
                 bad, deleted = check_list(points, tol)
+                if length <= 4:
+                    bad += check_list(points, tol, as_tuples=True)[0]
+                    part.count("cases")
                 part.count("cases")
                 if deleted:
                     part.count("nontrivial")
@@ -113,7 +118,8 @@ def _lists_chunk(args):
                         part.count("multi_vertex_runs")
                 for clause, msg in bad:
                     part.violation(f"{clause}:{points}:{tol}", msg,
-                                   {"kind": "list", "points": [list(p) for p in points], "tol": tol})
+                                   {"kind": "list", "points": [list(p) for p in points], "tol": tol,
+                                    "as_tuples": "as tuples" in msg})
     return part
 
 
@@ -341,4 +347,5 @@ def replay(case):
         return [m for _c, m in check_predicate(points, case["tol"],
                                                case.get("ref_slack", 1e-9))[0]]
     slack = F(1, 10 ** 9) if case.get("slack") else 0
-    return [m for _c, m in check_list(points, case["tol"], slack)[0]]
+    return [m for _c, m in check_list(points, case["tol"], slack,
+                                      case.get("as_tuples", False))[0]]
